@@ -13,6 +13,32 @@ CLAIMS = {
          "getter candidate or name-based candidate can be created without its opt-in flag and the go/types judgement that justifies it, that getters "
          "win over fields, and that the name/getter/stringer predicates have the documented shape. Necessary conditions of the property; the choice "
          "among several candidates is not decided.", "DESIGN.md §3 C04", "reaching-condition (gating) analysis over go/ssa + predicate-body shape rules"),
+ "C05": ("Structure of the destination pass decided for all inputs: every destination field is visited once in declaration order by a loop that cannot stop early, the per-field matcher runs "
+         "exactly for the fields that pass the visibility filter, its verdict can be dropped only when nil or an error is pending, every no-match verdict is preceded by a positioned warning on stderr. "
+         "The covering relation for nested shapes as a whole is not decided.", "DESIGN.md §3 C05", "reaching-condition analysis + must-pass-through (path-avoiding reachability) on go/ssa"),
+ "C06": ("Precedence chain decided for all inputs: skip verdict first and exclusive, default name match only after the four explicit-notation lists were exhausted, a hit returns the assignment built from that element, "
+         "explicit paths compared case-sensitively on the unmodified path, keyword tables and parser switch agree, :map routes by `$`, ShouldSkip shape. Nested-path notations under an assignable struct are a recorded known finding (F18). "
+         "Regexp semantics and resolution results are not decided.", "DESIGN.md §3 C06", "reaching-condition analysis over go/ssa + keyword-table/switch exhaustiveness over the typed AST"),
+ "C07": ("Builder side decided for all inputs: an error-capturing assignment or hook can only be created when the method returns an error (I1, I2), error flags are computed from signatures as documented, wrappers never surround error-returning nodes. "
+         "The emitted text (error check after each err assignment) is judged by the template rules when built. Run-time error identity is not decided.", "DESIGN.md §3 C07", "reaching-condition analysis + origin-term shape rules on go/ssa"),
+ "C08": ("Legality rejections and IR feeding decided for all inputs: illegal combinations cannot reach a success return; Function/Var IR fields come from the documented signature elements with the documented default names. "
+         "The header text itself is judged by the template rules when built.", "DESIGN.md §3 C08", "reaching-condition analysis + origin-term (value provenance) rules on go/ssa"),
+ "C09": ("Non-interference shape decided for all inputs: interface options are the cell the interface-level parse wrote, fresh per interface; per-method cell local and initialised from the entry; no shared-slice aliasing is constructible; "
+         "writers of shared state are exactly a confirmed table. Output equality with single-method runs is not decided.", "DESIGN.md §3 C09", "location-level value-flow (cells and their writers) + who-may-write inventory on go/ssa"),
+ "C10": ("Hook validators and flag feeding decided for all hook shapes: ill-shaped hooks cannot pass lookupManipulatorFunc/buildManipulator; IR flags come from the right signature elements. Call placement/adaptation text is judged by the template rules when built. "
+         "Run-time call order is not decided.", "DESIGN.md §3 C10", "reaching-condition analysis + origin-term rules on go/ssa"),
+ "C12": ("Necessary structural conditions for all histories: the previous output is withheld from the loader (every ParseFile dominated by SameFile(output)==false), the output path flows only to os.Stat / goimports' name / WriteFile's name, load errors are never consulted, single whole-file write. "
+         "Behaviour of `go list` on a broken file at that path is external and not decided.", "DESIGN.md §3 C12", "reaching-condition analysis + use enumeration (taint by referrers) on go/ssa"),
+ "C14": ("A closed list of panic/hang/exit-path classes decided for all inputs, each with enumerated accepted idioms (tuple indexing, split/submatch indexing, discarded errors, nil packages, unchecked assertions, callback-assigned pointers, MustCompile, loop variance, error propagation, all-or-nothing parsing, stderr+exit, positioned diagnostics). "
+         "General panic-freedom is not decidable and not claimed.", "DESIGN.md §3 C14", "interval facts from reaching conditions + inventories with exception tables on go/ssa"),
+ "C15": ("Complete effect inventory of module→external calls decided for all inputs and flags: the only file-mutating calls are the output write and the log open, the write is dominated by dryRun==false and the nil-error edges, no error exit after a successful write, path is Config.Output unmodified. "
+         "Effects of external programs (go list, goimports) are not decided.", "DESIGN.md §3 C15", "effect table / who-may-call inventory + reaching-condition analysis on go/ssa"),
+ "C17": ("Selection decided for all inputs: an entry is created only for interface objects declared in the input file that are named Convergen or marked on their own Doc group, every scope name is examined, zero entries is an error, markers are per entry and used consistently, per-interface loops cannot drop elements. "
+         "Verbatim printing of unselected interfaces is not decided.", "DESIGN.md §3 C17", "reaching-condition analysis + must-emit loop rule on go/ssa"),
+ "C18": ("Shape of the CLI computation decided for all flag combinations: Config fields derive from the documented flags/env with the documented expressions, roles of Generate's parameters, success only with print off or after printing string(written bytes) as an operand. "
+         "OS-level path spelling and log-open failures are not decided.", "DESIGN.md §3 C18", "origin-term (value provenance) rules + path-avoiding reachability on go/ssa"),
+ "C19": ("Decided for all triples as far as code shape shows: ==/EqualFold split on the case rule over unmodified operands, no case-mapped text reaches regexp.Compile or MatchString, (?i) chosen by the case rule, plain patterns anchored and quoted, the PatternMatcher cache is always consistent with its recorded rule. "
+         "Agreement of Go regexp with RE2 is not decided.", "DESIGN.md §3 C19", "φ-case value analysis + taint rule + typestate-like cache invariant on go/ssa"),
 }
 PENDING = {}
 ALL = ["C%02d" % i for i in range(1, 20)]
